@@ -305,6 +305,8 @@ func (cx *Ctx) InstallStdlib2() {
 			c := s.C.Elem(s.Off)
 			st.Assume(Implies(Not(e), Or(isDigit(c), Eq(c, BVC(8, '+')), Eq(c, BVC(8, '-')))))
 			st.Assume(Implies(And(Not(e), Eq(s.Len, BV64(1))), And(isDigit(c), Eq(v, ZExt(64, Sub(c, BVC(8, '0')))))))
+			// a one-character string parses exactly when the character is a digit
+			st.Assume(Implies(And(Eq(s.Len, BV64(1)), isDigit(c)), Not(e)))
 		}
 		fx.Cx.Note("strconv.Atoi on strings longer than one character: value abstracted")
 		k(st, TupleV{[]Value{Scalar{Ite(e, BV64(0), v)}, ErrV{Ite(e, BVC(8, ErrOther), BVC(8, ErrNil))}}})
